@@ -25,12 +25,8 @@ Section SPEC.
     (negb (op_has_body op) || o_excl_body o || op_body_ok op).
 End SPEC.
 
-(* guards: the two places where the implementation departs from the property *)
-(* class 1: with ExcludeRequestQueryParams the path-level query parameters are still validated *)
-Definition g_no_path_query (o : ropts) (op : operation) : bool :=
-  negb (o_excl_query o) || forallb (fun p => negb (loc_eqb (p_in p) LQuery)) (path_params op).
-(* class 2: without an AuthenticationFunc every non-empty requirement list fails, even one holding
-   an empty requirement *)
-Definition g_auth_configured (o : ropts) (op : operation) : bool :=
-  o_has_auth o ||
-  match (match op_security op with Some l => l | None => doc_security op end) with [] => true | _ => false end.
+(* what "no authentication callback" means for the oracle [auth]: nothing is accepted.  (The two
+   guards this file used to carry - path-level query parameters under ExcludeRequestQueryParams, the
+   empty requirement without a callback - were deleted when the two defects were repaired in /repo.) *)
+Definition callback_meaning (auth : string -> bool) (o : ropts) : Prop :=
+  o_has_auth o = false -> forall n, auth n = false.
